@@ -1,1 +1,11 @@
 import XPathV.Theorems.C16
+#print axioms XPathV.Theorems.C16.init_inv
+#print axioms XPathV.Theorems.C16.cache_exact
+#print axioms XPathV.Theorems.C16.cache_bounded
+#print axioms XPathV.Theorems.C16.cache_returns_loaded
+#print axioms XPathV.Theorems.C16.cache_no_error_memo
+#print axioms XPathV.Theorems.C16.cache_hit
+#print axioms XPathV.Theorems.C16.cache_miss_loads
+#print axioms XPathV.Theorems.C16.cache_unbounded_when_zero
+#print axioms XPathV.Theorems.C16.get_skeleton_ok
+#print axioms XPathV.Theorems.C16.evict_cond_ok
